@@ -734,6 +734,7 @@ package ring
 //@ afunc Ring.Add
 //@   trusted ring-element view; an operand that is the zero element of no particular domain (a freshly allocated polynomial) has no Montgomery form of its own: the result takes the other operand's
 //@   requires (((isntt(p1) && isntt(p2)) || (iscoef(p1) && iscoef(p2))) && mexp(p1) == mexp(p2)) || (val(p1) == 0 && dom(p1) == 2) || (val(p2) == 0 && dom(p2) == 2)
+//@   rowsafe r.level < len(p1.Coeffs) && r.level < len(p2.Coeffs) && r.level < len(p3.Coeffs)
 //@   assigns p3
 //@   ensures val(p3) == old(val(p1)) + old(val(p2)) && mexp(p3) == ite(old(val(p1)) == 0 && old(dom(p1)) == 2, old(mexp(p2)), old(mexp(p1))) && dom(p3) == ite(old(dom(p1)) == 2, old(dom(p2)), old(dom(p1)))
 
@@ -878,6 +879,7 @@ package ring
 
 //@ afunc Poly.CopyLvl
 //@   trusted copies the rows up to level
+//@   rowsafe level < len(pol.Coeffs) && level < len(p1.Coeffs)
 //@   assigns pol
 //@   ensures val(pol) == old(val(p1)) && mexp(pol) == old(mexp(p1)) && dom(pol) == old(dom(p1)) && uni(pol) == old(uni(p1))
 
